@@ -90,6 +90,15 @@ def oracle_typing(c):
                     break
     if committed and any(t.trs_is_error() for t in tracts) and not d.e_flags:
         fails.append(Failure("error_trs_without_flag", f"a tract has an undecipherable Twp/Rge/Sec but e_flags is empty: {[t.trs for t in tracts]}", **ctx))
+    if committed and not fails:
+        # "flawed exactly when it has an error flag" is a statement about the flags, whatever is done to the list of tracts afterwards
+        flags_before = list(d.e_flags)
+        d.filter_errors(drop=True)
+        if bool(d.desc_is_flawed) != bool(d.e_flags) or list(d.e_flags) != flags_before:
+            fails.append(Failure("desc_is_flawed_after_filter", f"after filter_errors(drop=True): desc_is_flawed={d.desc_is_flawed}, e_flags={d.e_flags!r} (before: {flags_before!r}), {len(d.tracts)} tracts left", **ctx))
+        d.filter(lambda t: True, drop=True)
+        if bool(d.desc_is_flawed) != bool(d.e_flags):
+            fails.append(Failure("desc_is_flawed_after_filter", f"after every tract was filtered out: desc_is_flawed={d.desc_is_flawed}, e_flags={d.e_flags!r}", **ctx))
     _last["flags"] = n_flags
     seen, out = set(), []
     for f in fails:
@@ -247,6 +256,14 @@ def oracle_queries(c):
             want_sel = [trs] if (want_err or (undef and want_und)) else []
             if [x.trs for x in sel] != want_sel:
                 fails.append(Failure("query_filter_errors", f"{how}: filter_errors(twp={tw}, rge={rg}, sec={sc}, undef={undef}) on [{trs!r}, valid] selected {[x.trs for x in sel]}", **ctx))
+    # a Tract made by hand with such a string carries no flag, and is therefore not flawed (flawed <=> error flag, also for tracts)
+    from pytrs import Tract as _Tract
+    for which, trs in strings.items():
+        if trs:
+            lone = _Tract("NE/4", trs=trs)
+            check_flag_lists(lone, f"Tract(trs={trs!r})", fails, ctx)
+            lone2 = _Tract.from_twprgesec("NE/4", c["twp"], "1A" if which == "twprge_error" else c["rge"], c["sec"])
+            check_flag_lists(lone2, "Tract.from_twprgesec(...)", fails, ctx)
     d = PLSSDesc(text, config=c["config"])
     check_flag_lists(d, "PLSSDesc", fails, ctx)
     bad = [t.trs for t in d.tracts if "XX" in t.trs]
